@@ -2157,7 +2157,9 @@ class ResetIndex(Elemwise):
                     name = self.frame._meta.index.name
                 # replace the projection of the former index with the actual index
                 subs = Projection(self, name)
-                predicate = parent.predicate.substitute(subs, Index(self.frame))
+                predicate = parent.predicate.substitute(
+                    subs, ToSeriesIndex(Index(self.frame))
+                )
                 # the remaining parts of the predicate select ordinary columns
                 if self.frame.ndim == 1:
                     predicate = predicate.substitute(
